@@ -355,6 +355,18 @@ def generate(run_seed, tier):
                     mass=c.uniform(0.3, 2.0), metallicity=c.uniform(0.2, 3.0))
             if mcfg['tp']['kind'] == 'guillot' and c.random() < 0.6:
                 mcfg['tp']['T_int'] = c.uniform(0, 600)
+            # values that are exactly zero (legal, and not the defaults)
+            if c.random() < 0.3:
+                mcfg['planet']['impact'] = 0.0
+            if c.random() < 0.3:
+                mcfg['planet']['albedo'] = 0.0
+            if c.random() < 0.2:
+                mcfg['star']['metallicity'] = 0.0
+            if mcfg['tp']['kind'] == 'guillot':
+                if c.random() < 0.25:
+                    mcfg['tp']['T_int'] = 0.0
+                if c.random() < 0.25:
+                    mcfg['tp']['alpha'] = 0.0
             if mcfg['tp']['kind'] == 'rodgers' and c.random() < 0.5:
                 n = mcfg['nlayers']
                 mcfg['tp']['cov'] = [[c.uniform(0.05, 1.0) for _ in range(n)]
@@ -384,6 +396,8 @@ def generate(run_seed, tier):
                 sub = [o.randint(0, mcfg['opac']['ngrid'] - nsub), nsub]
             elif r < 0.6:
                 sub = ['warp', o.choice([0.6, 0.8, 1.3, 1.7])]
+            elif r < 0.7:
+                sub = ['flip']
             ops.append(['store_spectrum', o.choice(['flux', 'flux', 'simple',
                                                     'native']),
                         o.choice([1, 3, 6]), 'Spectra%d' % len(ops), sub])
@@ -707,6 +721,13 @@ def execute(case, keep_text=False):
                         ((g - g[0]) / (g[-1] - g[0])) ** sub[1]
                     ga[0], ga[-1] = g[0], g[-1]
                     res = (ga,) + tuple(res[1:])
+                elif sub and sub[0] == 'flip':
+                    # the same result handed over in descending wavenumber
+                    # order (binners sort what they are given)
+                    res = model.model()
+                    res = (np.array(res[0])[::-1].copy(),
+                           np.array(res[1])[::-1].copy(),
+                           np.array(res[2])[:, ::-1].copy()) + tuple(res[3:])
                 elif sub:
                     g = S.native_grid(cfg['model'])
                     res = model.model(wngrid=g[sub[0]:sub[0] + sub[1]])
@@ -716,7 +737,8 @@ def execute(case, keep_text=False):
                     res, output_size=OutputSize(op[2]))
                 if r == 0:
                     spectra_written[op[3]] = (
-                        op[1] + (':warped' if sub and sub[0] == 'warp' else ''),
+                        op[1] + (':warped' if sub and sub[0] in ('warp', 'flip')
+                                 else ''),
                         op[2], [np.array(res[0]), np.array(res[1]),
                                 np.array(res[2])])
                 o.store_dictionary(spec, group_name=op[3])
